@@ -104,6 +104,7 @@ const basePrelude = `(declare-sort Str 0)
 (declare-sort Fn 0)
 (declare-datatypes ((BI 0)) (((bnil) (bint (bval Int)))))
 (declare-datatypes ((Rat 0)) (((mk_Rat (rnum Int) (rden Int)))))
+(assert (= (bval bnil) 0))
 (declare-const err_nil Err)
 (declare-const fn_nil Fn)
 (declare-const str_empty Str)
